@@ -307,7 +307,10 @@ contract(
     ensures=lambda c: And(c.result[0] == cur_hash(c, c.name), Not(c.result[0].contains(".dir")), c.result[0].length() > 0, _exists_if_local(c)),
     assumed=True,
     verify=False,
-    doc="[to be verified against file_md5/fobj_md5 (C14) and the fs-provided checksums] the digest of the file's current bytes under `name`",
+    bounded=("bounded/hash_file_fs.py", 60, 900),
+    props=["C14"],
+    doc="[body not verified: bounded stand-in; fobj_md5 is proved under C14] the digest of the file's current bytes under `name`, "
+        "whichever of the three sources supplies it (checksum in fs.info, hash method of the filesystem, hashing the bytes)",
 )
 
 
